@@ -43,6 +43,11 @@ package ecdsa
 //@ ghost onkey = false
 //@ ghost ux = 0
 //@ ghost uz = 0
+//@ ghost onmsg = false
+//@ ghost ondigest = false
+//@ cut before call HashToInt #1
+//@ + ghost onmsg = same(callarg0, message)
+//@ + ghost ondigest = same(callarg0, resultof_Sum)
 //@ cut after call HashToInt #1
 //@ + ghost m = *callresult
 //@ cut after call JointScalarMultiplicationBase #1
@@ -59,6 +64,7 @@ package ecdsa
 //@ + ghost s = *callarg0
 //@ ensures[decoded] isnil(result1) ==> len(sigBin) == 2*sizeFr && r == be(sigBin[0:sizeFr]) && s == be(sigBin[sizeFr:2*sizeFr]) && 0 < r && r < q && 0 < s && s < q
 //@ ensures[refused] !isnil(result1) ==> !result0
+//@ ensures[hashed] isnil(result1) ==> (isnil(hFunc) ==> onmsg) && (!isnil(hFunc) ==> ondigest)
 //@ ensures[scalars] isnil(result1) ==> onkey && u1 == bigmod(m * bigmodinv(s, q), q) && u2 == bigmod(r * bigmodinv(s, q), q)
 //@ ensures[equation] isnil(result1) ==> result0 == (bigmod(toint(ux * inv(uz * uz)), q) == r)
 //@ modifies nothing
